@@ -470,6 +470,23 @@ class TopRTL2CL(Component):
       s.cyc += 1
       if s.q.deq.rdy() and not stall[s.cyc % len(stall)]:
         s.delivered.append(int(s.q.deq()))
+class KeepCL(Component):
+  # a cycle-level consumer that KEEPS the message objects it is handed and looks at them only later
+  def construct(s, stall):
+    s.kept = []; s.cyc = 0
+    @update_once
+    def up_cnt():
+      s.cyc += 1
+  @non_blocking(lambda s: not s.stall[s.cyc % len(s.stall)])
+  def enq(s, msg):
+    s.kept.append(msg)
+class TopRTL2Keep(Component):
+  # RTL producer -> (stock RTL->CL adapter) -> consumer that keeps the objects
+  def construct(s, stall):
+    s.go = InPort(1)
+    s.p = ProdRTL(); s.p.go //= s.go
+    s.k = KeepCL(stall); s.k.stall = stall
+    connect(s.p.send, s.k.enq)
 """
 
 
@@ -485,7 +502,7 @@ def run_mixed(sh, case):
   L = rng.randrange(5, 12)
   stall = [rng.random() < rng.choice([0.2, 0.6, 0.85]) for _ in range(L)]
   if all(stall): stall[0] = False
-  shape = rng.choice(["cl2rtl", "rtl2cl"])
+  shape = rng.choice(["cl2rtl", "rtl2cl", "rtl2keep"])
   ncyc = rng.randrange(40, 120)
   try:
     if shape == "cl2rtl":
@@ -495,6 +512,15 @@ def run_mixed(sh, case):
       top.elaborate(); top.apply(DefaultPassGroup()); top.sim_reset()
       for _ in range(ncyc): top.sim_tick()
       accepted, delivered = list(top.prod.accepted), list(top.delivered)
+    elif shape == "rtl2keep":
+      top = mod.TopRTL2Keep(stall)
+      top.elaborate(); top.apply(DefaultPassGroup()); top.sim_reset()
+      for _ in range(ncyc):
+        top.go @= int(rng.random() < 0.8)
+        top.sim_tick()
+      delivered = [int(x) for x in top.k.kept]          # looked at only now: each kept object still holds the value it was handed over with
+      accepted = [0x100 + i for i in range(int(top.p.cnt) + int(top.p.send.en))]
+      sh.count("mixed_runs_with_a_consumer_that_keeps_the_objects")
     else:
       top = mod.TopRTL2CL(getattr(mod, kind + "QueueCL"), n, stall)
       top.elaborate(); top.apply(DefaultPassGroup()); top.sim_reset()
